@@ -198,6 +198,11 @@ def apply_some_edit(s, rng, kw=None):
     confd = [n for n, c in comps.items() if c["pconf"]["t"] != "none" and c["pconf"]["v"]] if st["sysph"] else []
     kinds += ["replace_conf_reset"] if confd else []
     kinds += ["rename"]         # (a source or an inner component gets another name after the system has been analysed)
+    # a source that was dead in the analysis (0 V, or not listed in some phase) is switched on by an edit that leaves the
+    # tree shape alone: a replacement with a non-zero voltage, or another list of active phases
+    zsrc = [n for n, c in comps.items() if not c["par"] and c["pay"]["params"].get("vo", {}).get("v") in ([0, 0], [1, 0])]
+    psrc = [n for n, c in comps.items() if not c["par"] and c["pconf"]["t"] == "list" and c["pconf"]["v"]] if st["sysph"] else []
+    kinds += (["source_on"] if zsrc else []) + (["source_phases"] if psrc else [])
     if not kinds:
         return None
     # stratified: the applicable kind that has been used least so far in this run (ties broken at random)
@@ -247,6 +252,18 @@ def apply_some_edit(s, rng, kw=None):
             s.del_comp(n)
             s.add_comp(h, comp=build(desc_of(comps[n])), group=comps[n]["group"], rail=comps[n]["rail"])
             what = "moved %s below %s" % (n, h)
+        elif kind == "source_on":
+            n = rng.choice(zsrc)
+            d = desc_of(comps[n])
+            d["params"]["vo"] = float("%.3g" % rng.uniform(3.0, 24.0))
+            s.change_comp(n, comp=build(d), group=comps[n]["group"], rail=comps[n]["rail"])
+            what = "0 V source %s replaced by a live one" % n
+        elif kind == "source_phases":
+            n = rng.choice(psrc)
+            allph = [p["name"] for p in st["sysph"]]
+            rest = [p for p in allph if p not in comps[n]["pconf"]["v"]]
+            s.set_comp_phases(n, rest if (rest and rng.random() < 0.7) else allph)
+            what = "source %s made active in other phases" % n
         elif kind == "rename":
             srcs = [n for n, c in comps.items() if not c["par"]]
             n = rng.choice(srcs if (rng.random() < 0.6 or not inner) else inner)
